@@ -1,6 +1,6 @@
 TB_K = ["Kani 0.68.0", "CBMC 6.11.0", "cvc5 1.0.3", "CaDiCaL 3.0.0 / Kissat 4.0.1"]
 TB_V = ["Verus 0.2026.09.13 / Z3", "A2 f32 order axioms (cross-checked bit-precisely by Kani)", "A3 Easing::clone == identity"]
-ADUR = "A4': Duration::as_secs_f32 / from_secs_f32 are replaced in the animator harnesses by uninterpreted functions (monotone, 0 <-> ZERO) over durations below 2^23 s (97 days); from_secs_f32(0)==ZERO is proved on std, monotonicity of as_secs_f32 on that domain is assumed (argued in verif_dur.rs; the solvers did not return in 300 s)"
+ADUR = "A4': Duration::as_secs_f32 / from_secs_f32 are replaced in the animator harnesses by uninterpreted functions (monotone, 0 <-> ZERO) over durations below 2^23 s (97 days); from_secs_f32(0)==ZERO is proved on std, monotonicity of as_secs_f32 on that domain is NOT machine-proved as one obligation (Kissat and cvc5: no result in 3000 s); it is assembled from: float addition monotone / integer seconds exact (Kani, dur_add_monotone), n as f32/1e9 monotone in [0,1] (exhaustive native enumeration of all 10^9 values), as_secs_f32 == s as f32 + n as f32/1e9 (std's definition; sampled natively), composed in three lines in verif_dur.rs"
 ATL = "timelines inside the animator / merged timeline are ARBITRARY values of the abstract contract TL (step function of time, shows substituted start values up to the delay, touches only its own properties); that generated timelines satisfy TL is C01/C08/C09/C10's business"
 P["C01"] = {"assumptions": [A["KANI"], A["FLOAT"], "V-R1: from_keyframes verified for &Vec<Keyframe> (the derive macro's call shape)", "value function pure", "interpolate_value enters route V as an uninterpreted function; its definition is the Kani-proved contract"],
             "trusted_base": TB_V + TB_K, "not_decided": ["prepare_frame is proved for every number of keyframes ASSUMING std's documented binary-search contract (A7); the real std search is executed only in the bounded Kani harnesses (0,1,2,3,4,6,8,16 master keyframes)"]}
@@ -46,3 +46,12 @@ for pid, why in (("C15", "bounded over sentences: timeline! is compared with the
                               "from_keyframes replaced by a capturing stub, so structural equality of what the two timelines were built from is what is compared"],
               "trusted_base": TB_K, "level": "other", "explanation": why,
               "not_decided": ["sentences outside the family", "that ill-formed sentences (unknown suffix, missing %, non-integer repeat, keyframe without braces) are rejected at compile time: a harness cannot contain code that does not compile"]}
+
+# bounded native searches on the real code that always run with the property's check (never counted as proved)
+P["C11"]["native"] = ["native_builder_search"]
+P["C17"]["native"] = ["native_derive_search"]
+P["C12"]["native"] = ["native_merged_search"]
+P["C06"]["native"] = ["native_dur_search"]
+P["C01"]["native"] = ["native_prepare_search"]
+P["C10"]["native"] = ["native_prepare_search"]
+
